@@ -84,7 +84,7 @@ SPEC = {
                  "C04_mem_get_returns_a_private_copy", "C04_extended_realm_is_a_private_copy", "C04_withRealm_keeps_the_callers_slice",
                  "C04_batch_keeps_private_key_copies", "C04_mem_commit_stores_copies", "C04_iterate_keys_hands_out_copies",
                  "C04_iterate_hands_out_key_and_value_copies", "C04_mem_stored_data_evolves_by_value",
-                 "C04_mem_step_refines_value_model", "C04_mem_refines_value_model",
+                 "C04_mem_step_refines_value_model", "C04_mem_refines_value_model", "C04_mem_stored_data_is_the_ordered_map",
                  "C04_wrapper_model_is_the_source_flushkv", "C04_wrapper_model_is_the_source_debug", "C04_wrapper_constructors_text",
                  "C04_trace_model_is_sem",
                  "C04_mapdb_model_is_the_source", "C04_mapdb_batch_model_is_the_source", "C04_mapdb_constructor_text",
